@@ -123,6 +123,14 @@ def gen_cases(tier, seed):
             names_used = {o.get('name') for t in terms for o in t['objs']}
             if 'D' in names_used:
                 assump['antisym_tensors'] = ['D']
+                # powers of symbolic denominators (second-order terms)
+                tgs = set(tg)
+                for t in terms:
+                    for o in t['objs']:
+                        if o.get('name') == 'D' and 'exp' not in o and \
+                                not tgs & set(ir.obj_index_list(o)) and \
+                                r.random() < 0.45:
+                            o['exp'] = r.choice([2, 2, 3])
             if 'v' in names_used and r.random() < 0.7:
                 assump['sym_tensors'] = assump['sym_tensors'] + ['v']
             cases.append({'id': f'C18-{tier[0]}{seed}-{k:05d}', 'kind': 'gen',
@@ -151,7 +159,8 @@ def classes(x):
     return {k: sorted(v) for k, v in out.items()}
 
 
-def roundtrip(E, res, tgt, model_args, label, tags=(), check_text=True):
+def roundtrip(E, res, tgt, model_args, label, tags=(), check_text=True,
+              raw=None):
     """E: adcgen Expr (expanded). Returns False if a violation was recorded."""
     from adcgen import Expr, import_from_sympy_latex
     from sympy.physics.secondquant import FermionicOperator, NO
@@ -193,6 +202,18 @@ def roundtrip(E, res, tgt, model_args, label, tags=(), check_text=True):
             res.violation(f'{label}: value changed by print -> import: '
                           f'{s1[:300]}  ->  {s2[:300]}', tags)
             return False
+        if raw is not None and tgt is not None:
+            # the plain sympy object the container was built from, in the same
+            # model (which satisfies the declared assumptions)
+            try:
+                if not np.array_equal(ev.value(raw, tgt), v1):
+                    res.violation(
+                        f'{label}: the imported text does not have the value of '
+                        f'the expression the container was built from: {raw} '
+                        f'(assumptions {E.assumptions}) -> {s2[:300]}', tags)
+                    return False
+            except tm.ModelUnusable:
+                pass
     if check_text and s1 != s2:
         res.violation(f'{label}: re-printed text differs: {s1[:300]}  ->  '
                       f'{s2[:300]}', tags)
@@ -254,7 +275,8 @@ def run_case(case, res):
     if any(o.get('name') == 'D' for t in case['terms'] for o in t['objs']):
         res.count('with_symbolic_denominator')
     res.observed = {'text': str(E)[:400], 'assumptions': a}
-    if roundtrip(E, res, tgt, margs, 'generated') and case.get('unexpanded'):
+    if roundtrip(E, res, tgt, margs, 'generated',
+                 raw=None if case['ops'] else e) and case.get('unexpanded'):
         # observation only: expanded expressions never contain bracket powers, so
         # this shape is outside the property's quantifier (the importer fails on
         # some of these texts on the unchanged tree)
